@@ -168,6 +168,8 @@ def check_C19(ctx):
         "negative_control": "3 corrupted predictions (index(of:) +1, a defined slice made failing, count +1 / extra split part) all reported; "
                             "a corrupted cluster sequence is rejected by the validation against x/text and uniseg (exit 2)",
         "exhaustive": True,
+        "exhaustive_scope": "all sources up to %d symbols over each class-focused alphabet and up to 3 symbols over the full alphabet (%d rows); "
+                            "the %d longer generated sources are a seeded sample" % (4 if ctx.quick else 5, runs[0].distinct, len(cases)),
     }, assumptions=[
         "the alphabet is 17 code points, one or two per class the UAX #29 / UAX #15 rules distinguish (no Prepend, SpacingMark, Control other than CR/LF, "
         "no second non-zero combining class: canonical reordering is not exercised)",
